@@ -96,7 +96,12 @@ def prefix(tokeniser: 'Tokeniser') -> IPRange:
 def path_information(tokeniser: 'Tokeniser') -> PathInfo:
     pi = tokeniser()
     if pi.isdigit():
+        if int(pi) > _SIZE_L:
+            raise ValueError(f"'{pi}' is not a valid path-information\n  Must fit 32 bits")
         return PathInfo.make_from_integer(int(pi))
+    parts = pi.split('.')
+    if len(parts) != _IPV4_PARTS or not all(_.isascii() and _.isdigit() and int(_) <= _SIZE_B for _ in parts):
+        raise ValueError(f"'{pi}' is not a valid path-information\n  Format: <number> or <a.b.c.d>")
     return PathInfo.make_from_ip(pi)
 
 
